@@ -25,8 +25,9 @@
 
   Control flow is kept code-shaped.  This is the code after the fix: commits 919a36b (the loop variable
   no longer doubles as the return value, DESIGN 6 items 10/18) and 576f1fd (a final-flagged state that
-  has just been entered fires also when its active children are not all final, item 11) and 56c10cf
-  (`_just_entered` compares the scoped path as well as the state object).  The root call
+  has just been entered fires also when its active children are not all final, item 11) 56c10cf
+  (`_just_entered` compares the scoped path as well as the state object) and 4b253dd (`_scoped_final`: the root scope,
+  where `scoped` is the machine, is never treated as a final state whatever attribute `final` the machine object has).  The root call
   can still reach `machine.scoped_enter` syntactically; `C18_nested_exact` proves it never does.
   Import-free: the driver links this file.
 -/
@@ -116,12 +117,12 @@ inductive RootResult
 no `final` attribute and no `scoped_enter`); `roots` is the whole new configuration. -/
 def finalCheckRoot (D : Defs) (E : List Nat) (roots : List Tree) : RootResult :=
   let r := finalLoop D E roots [] true
-  if roots.isEmpty then .ok []                       -- getattr(machine, 'final', False) → False
+  if roots.isEmpty then .ok []                       -- `_scoped_final`: the machine itself is never final
   else if r.2 then
     if !r.1.isEmpty then .ok (r.1 ++ [.machine])     -- `on_final_cbs or …` short-circuits
     else if E.isEmpty then .ok r.1                   -- any() over no partials: nothing is evaluated
     else .attributeError                             -- first partial: `machine.scoped_enter`
-  else .ok r.1      -- `elif getattr(machine, 'final', False) and …`: False, nothing is evaluated
+  else .ok r.1      -- `elif self._scoped_final(event_data) and …`: False at the root, nothing else is evaluated
 
 /-- the callbacks `_change_state` then runs: `for on_final_cb in on_final_cbs: on_final_cb()`, each a
 `machine.callbacks(owner.on_final, event_data)` -/
